@@ -60,7 +60,7 @@ type Mutation struct {
 	Also   []Edit // further edits of the same mutation (same or other files)
 	// Benign marks a behaviour-preserving edit (rename, helper extraction, reordering of independent statements):
 	// the property still holds, so the check must stay silent — no new failure and no "undecided".
-	Benign bool
+	Benign  bool
 	All     bool   // replace every occurrence of Old in File (renames); Old must occur at least once
 	AlsoAll []Edit // further replace-every-occurrence edits
 }
